@@ -18,7 +18,8 @@ EXPLANATION = (
     "today: every chain is reported (finding F16, reproduced in findings/server/F16_demo.rs).")
 DECIDED = ["R26a one place builds paths; chain shapes equal the frozen table (WHO + TABLE)",
            "R26b names are validated before they name files (DOM over handler, action and sink)",
-           "R26c rename / copy never target an existing file (DOM on the existence test of db_file(new_owner, new_db))"]
+           "R26c rename / copy never target an existing file (DOM on the existence test of db_file(new_owner, new_db))",
+           "R26d the recovery log name is derived by splitting at the last `/` (DOM)"]
 UNDECIDED = ["file-system state (symlinks, case-insensitive file systems, pre-existing files)",
              "that a recognised validator rejects exactly the dangerous names (separators, `..`, leading dot, reserved "
              "names `backups`/`audit`, suffix collisions such as `x.bak`): the idiom only establishes that the name is "
@@ -403,8 +404,60 @@ def r26c(ctx, rule="R26c"):
                "file (another database's recovery log / a left-over file) is silently replaced" % (fn, detail), b.where)
 
 
+def r26d(ctx, rule="R26d"):
+    """The recovery log of `<dir>/<name>` is `<dir>/.<name>`: the dot goes in front of the file-name component, i.e. behind
+    the last `/` whenever the path has one (a `\\` is an ordinary file-name character on the server's platform and reaches
+    database names as `%5C`).  Treating the last separator "of either kind" as the split point puts the log of `a\\b` at
+    `a\\.b` - the data file of the database with that name."""
+    fa = ctx.facts
+    b = ctx.anchor(rule, "agdb::storage::write_ahead_log::WriteAheadLog::wal_filename")
+    if not b:
+        return
+    finds = [(i, t) for i, t in cfg.calls(b) if last(cfg.callee(t) or "") in ("rfind", "rsplit_once", "rsplit", "file_name", "parent")]
+    slash = [(i, t) for i, t in finds if any((cfg.op_const(a) or {}).get("c") in ("'/'", '"/"') for a in t["a"])]
+    path_api = [(i, t) for i, t in finds if last(cfg.callee(t) or "") in ("file_name", "parent") and "path::Path" in (cfg.callee(t) or "")]
+    other = [(i, t) for i, t in finds if (i, t) not in slash and (i, t) not in path_api]
+    # searches inside closures: allowed only as the fallback of the slash search (`rfind('/').or_else(|| ..)`)
+    clos_other = []
+    for cb in fa.closures_of(b):
+        for i, t in cfg.calls(cb):
+            if last(cfg.callee(t) or "") in ("rfind", "rsplit_once", "rsplit", "find") and \
+                    not any((cfg.op_const(a) or {}).get("c") in ("'/'", '"/"') for a in t["a"]):
+                clos_other.append((cb, i))
+    fallback_closures = set()
+    for i, t in slash:
+        der = cfg.derived_locals(b, [t["d"][0]])
+        for j, u in cfg.calls(b):
+            if last(cfg.callee(u) or "") in ("or_else", "unwrap_or_else") and u["a"] and cfg.op_place(u["a"][0]) and \
+                    cfg.op_place(u["a"][0])[0] in der:
+                for a in u["a"][1:]:
+                    pl = cfg.op_place(a)
+                    for d in (cfg.defs(b).get(cfg.origin(b, pl)[0], []) if pl else []):
+                        if d[0] == "assign" and d[2]["k"] == "agg" and d[2].get("what") == "closure":
+                            fallback_closures.add(fa.body(d[2]["def"]).path)
+    ok = False
+    detail = "neither `rfind('/')` nor Path::file_name / parent decides where the dot is inserted"
+    if path_api and not other and not clos_other:
+        ok, detail = True, "split with the platform's Path API"
+    elif slash:
+        # any other separator search happens only when the path has no `/`
+        none_edges = []
+        for i, t in slash:
+            for te in cfg.result_edges(b, [t["d"][0]]):
+                none_edges.append(te["err_edge"])
+        ok = (not other or (bool(none_edges) and all(cfg.find_path(b, [0], [i], removed_edges=none_edges) is None for i, t in other))) \
+            and all(cb.path in fallback_closures for cb, i in clos_other)
+        detail = "the position behind the last `/` is used whenever there is one" if ok else \
+            "another separator search (%s) is not confined to paths without `/`" % (
+                [b.loc(i) for i, t in other] + [cb.loc(i) for cb, i in clos_other])
+    ctx.ob(rule, "wal_filename:split-at-last-slash", ok, detail if ok else
+           "WriteAheadLog::wal_filename: %s: a backslash inside a database name moves the dot, and the recovery log lands on "
+           "another database's data file" % detail, b.where)
+
+
 def run(ctx):
     r26a(ctx)
     r26b(ctx)
     r26c(ctx)
+    r26d(ctx)
     return 0
